@@ -196,8 +196,8 @@ struct traced : S {
 // get, and does its dealloc get the same?
 struct RecHook {
     void *ctx = nullptr;
-    void (*on_alloc)(void *ctx, void *p, std::size_t sz) = nullptr;
-    std::size_t (*on_dealloc)(void *ctx, void *p, std::size_t sz) = nullptr;   // returns the size to forward
+    void *(*on_alloc)(void *ctx, void *p, std::size_t sz) = nullptr;           // like TraceHook::on_alloc
+    bool (*on_dealloc)(void *ctx, void *p, std::size_t &sz) = nullptr;         // sets the size to forward; false: do not forward
 };
 static RecHook g_rec;
 template <typename B>
@@ -205,13 +205,13 @@ struct rec : B {
     using B::B;
     void *alloc(std::size_t sz) {
         void *p = B::alloc(sz);
-        if (g_rec.ctx) g_rec.on_alloc(g_rec.ctx, p, sz);
+        if (g_rec.ctx) if (void *q = g_rec.on_alloc(g_rec.ctx, p, sz)) return q;
         return p;
     }
     static void dealloc(void *p, std::size_t sz) {
         // a size that differs from the one alloc got is recorded; the base is then given the right one, so that
         // the process lives to report the difference
-        if (g_rec.ctx) sz = g_rec.on_dealloc(g_rec.ctx, p, sz);
+        if (g_rec.ctx) if (!g_rec.on_dealloc(g_rec.ctx, p, sz)) return;
         B::dealloc(p, sz);
     }
 };
@@ -272,6 +272,7 @@ struct FrameRec {
     int cidx = 0;                     // index of the creation (FrameRef / future / promise) it came from
     int o = 1;                        // storage object it was created on
     unsigned char *orig = nullptr;    // what the policy returned, when the harness had to relocate the frame
+    bool base_reloc = false;          // ... already below the attached-object layer
     std::size_t basz = 0, bdsz = 0;   // sizes the base policy's alloc / dealloc were called with
     bool bdealloc = false;
 };
@@ -555,7 +556,11 @@ struct World {
         ref.r = &r;
         if (!EX) r.basz = sz;
         if (ref.cls >= 1 && ref.cls <= 3 && sz != F[ref.cls]) w.note("frame-size-differs-from-calibration:" + std::to_string(r.id));
-        if (!w.usable_memory(r.ptr, sz + trailer)) {
+        if (EX && w.pending_reloc) {         // relocated below the attached-object layer already
+            r.orig = w.pending_base_ptr;
+            r.base_reloc = true;
+            w.pending_reloc = false;
+        } else if (!w.usable_memory(r.ptr, sz + trailer)) {
             w.note(std::string(p ? "memory-unusable:" : "alloc-returned-null:") + std::to_string(r.id));
             r.orig = r.ptr;
             r.ptr = g_emergency[r.id - 1];
@@ -572,33 +577,42 @@ struct World {
                 r.live = false;
                 r.dead = true;
                 if (!EX) { r.bdsz = sz; r.bdealloc = true; }
-                return r.orig ? nullptr : p;
+                return r.orig && !r.base_reloc ? nullptr : p;
             }
         }
         w.note("dealloc-unknown");
         return p;
     }
     // the base policy under the attached-object layer
-    static void on_base_alloc(void *ctx, void *p, std::size_t sz) {
+    static void *on_base_alloc(void *ctx, void *p, std::size_t sz) {
         World &w = *static_cast<World *>(ctx);
         w.pending_base_ptr = static_cast<unsigned char *>(p);
         w.pending_base_sz = sz;
+        w.pending_reloc = false;
+        if (!w.usable_memory(w.pending_base_ptr, sz + PB<P>::trailer) && w.nframes < (int) w.frames.size()) {
+            w.note(std::string(p ? "memory-unusable:" : "alloc-returned-null:") + std::to_string(w.nframes + 1));
+            w.pending_reloc = true;
+            return g_emergency[w.nframes];
+        }
+        return nullptr;
     }
-    static std::size_t on_base_dealloc(void *ctx, void *p, std::size_t sz) {
+    static bool on_base_dealloc(void *ctx, void *p, std::size_t &sz) {
         World &w = *static_cast<World *>(ctx);
         for (int i = w.nframes - 1; i >= 0; i--) {
             FrameRec &r = w.frames[i];
             if (r.dead && !r.bdealloc && r.ptr == p) {
                 r.bdsz = sz;
                 r.bdealloc = true;
-                return r.basz;
+                sz = r.basz;
+                return !r.base_reloc;
             }
         }
         w.note("base-dealloc-unknown");
-        return sz;
+        return true;
     }
     unsigned char *pending_base_ptr = nullptr;
     std::size_t pending_base_sz = 0;
+    bool pending_reloc = false;
 
     // ---- the public operations ----
     FrameRef &new_ref(int t, int c, int o) {
@@ -608,6 +622,7 @@ struct World {
         cur_ref[t] = &ref;
         pending_base_ptr = nullptr;
         pending_base_sz = 0;
+        pending_reloc = false;
         if (fam >= 2) {     // harness objects, not the storage's
             alloc_pause np;
             futs[ref.idx].reset(new cocls::future<int>());
@@ -621,7 +636,7 @@ struct World {
         if (!r) return;
         if constexpr (EX) {
             // what the base policy was asked for
-            if (pending_base_ptr == (r->orig ? r->orig : r->ptr)) r->basz = pending_base_sz;
+            if (pending_base_ptr == (r->orig ? r->orig : r->ptr) || r->base_reloc) r->basz = pending_base_sz;
             else note("base-alloc-not-seen:" + std::to_string(r->id));
             if (r->orig) { r->usable = false; return; }
             // the coroutine object exists (families 0/1: it has not started yet): the attached object must be usable
@@ -811,7 +826,7 @@ struct World {
             long ct = 0, dt = 0;
             if constexpr (EX) {
                 long end = r.ev_end < 0 ? ereg::n : r.ev_end;
-                const unsigned char *at = (r.orig ? r.orig : r.ptr) + r.sz;
+                const unsigned char *at = (r.orig && !r.base_reloc ? r.orig : r.ptr) + r.sz;
                 for (long k = r.ev_begin; k < end; k++) if (ereg::ev[k].addr == at) (ereg::ev[k].ctor ? ct : dt)++;
                 if (!r.usable) bad.push("extra-unusable-at-creation:" + std::to_string(r.id));
             }
